@@ -28,6 +28,7 @@ RULE = (
     "wrapper kind x sequence of 2..30 calls over the argument alphabet; expression case = one random expression of depth<=4 x record "
     "representation {dict, attribute object, bare scalar} x twin aggregators {Sum, Average, Bin, Select, SparselyBin} filled row-wise and "
     "vectorised. distinct = digest(case description); non-trivial = >=1 wrapped call compared with the raw function / >=1 twin comparison"
+    ' Call sequences include arguments modified in place between calls and sign-of-zero-sensitive functions.'
 )
 ASSUMPTIONS = [
     "the same argument object mutated in place between two calls is not generated: the identity shortcut of CachedFcn is its documented purpose and the statement speaks of equal and different arguments",
@@ -162,7 +163,32 @@ FUNCS = {
     "batch": ("lambda d: d['x'] + d['y']", lambda rng: {"x": np.array([rng.choice([0.0, 1.0]) for _ in range(rng.choice([1, 2]))]), "y": np.array([1.0, 2.0])[: rng.choice([1, 2])]}),
     "kwargs": ("lambda x, k=1: x * k", lambda rng: rng.choice([0.0, 1.0, 2.5, 3])),
     "two": ("lambda x, y: x - y", lambda rng: rng.choice([0.0, 1.0, 2.5, 3])),
+    # functions that tell +0.0 from -0.0 (the two compare equal, the function values differ)
+    "signed": ("lambda x: __import__('math').copysign(1.0, x)", lambda rng: rng.choice([0.0, -0.0, 0.0, -0.0, 1.0, -2.5])),
+    "signedarray": ("lambda a: __import__('numpy').copysign(1.0, a)", lambda rng: np.array([rng.choice([0.0, -0.0, 1.0]) for _ in range(rng.choice([1, 2]))])),
 }
+
+
+def _mutate_in_place(args, rng):
+    """Change the previous call's mutable arguments in place (a reused record dict, a refilled buffer): the same
+    objects now hold other values.  Returns True if something was changed."""
+    done = False
+    for a in list(args[0]) + list(args[1].values()):
+        if isinstance(a, np.ndarray) and a.size and a.flags.writeable:
+            a[rng.randrange(a.size)] = rng.choice([5.0, -7.5, 0.25])
+            done = True
+        elif isinstance(a, dict) and a:
+            key = rng.choice(sorted(a))
+            v = a[key]
+            if isinstance(v, np.ndarray) and v.size:
+                if rng.random() < 0.5:
+                    v[rng.randrange(v.size)] = rng.choice([5.0, -7.5, 0.25])
+                else:
+                    a[key] = v + 1.0
+            else:
+                a[key] = rng.choice([5.0, -7.5, 0.25])
+            done = True
+    return done
 
 
 def _clone_arg(a):
@@ -190,8 +216,10 @@ def _shadow_case(k, rng):
     prev = None
     log = []
     for j in range(n):
-        how = rng.choice(["same", "equal", "different", "different"]) if prev is not None else "different"
-        if how == "same":
+        how = rng.choice(["same", "equal", "different", "different", "mutated"]) if prev is not None else "different"
+        if how == "mutated" and not _mutate_in_place(prev, rng):
+            how = "same"
+        if how in ("same", "mutated"):
             args = prev
         elif how == "equal":
             args = (tuple(_clone_arg(a) for a in prev[0]), {kk: _clone_arg(v) for kk, v in prev[1].items()})
